@@ -863,6 +863,8 @@ pub fn iter_programs(thorough: bool, r: &mut rand::rngs::StdRng) -> Vec<Episode>
 // C09
 
 pub const TEXT_FORMS: [&str; 6] = ["hex", "bin", "display", "to_string", "lowerhex", "binary"];
+/// the formatting traits called with formatter flags: only compared between the two table types (C10)
+pub const TEXT_FORMS_FLAGS: [&str; 9] = ["display_w", "display_f", "display_p", "display_0", "lowerhex_w", "lowerhex_alt", "binary_w", "binary_alt", "binary_p"];
 
 fn hex_width(n: usize) -> usize {
     if n <= 2 { 1 } else { 1 << (n - 2) }
@@ -1353,6 +1355,28 @@ pub fn gen_c02(thorough: bool, seed: u64) -> Vec<Episode> {
     }
     // the iterator driven through nth (skip / step_by), count, last: every table it hands out
     eps.extend(iter_programs(thorough, &mut r));
+    // tables of DIFFERENT sizes (dynamic Lut): equality, hash and Ordering::Equal must tell them apart even when
+    // their block words coincide (both sizes at most 6: the same function padded, the constants, a shared word)
+    for n1 in 0..=8usize {
+        for n2 in 0..=8usize {
+            if n1 == n2 || (!thorough && (n1 + 2 * n2) % 3 == 0 && n1.max(n2) > 6) {
+                continue;
+            }
+            let small = n1.min(n2);
+            let a = random_on(small, &mut r);
+            let mut ops = Vec::new();
+            for (ta, tb) in [(a.clone(), a.clone()), (vec![], vec![]), ((0..dom(n1)).collect::<Vec<usize>>(), (0..dom(n2)).collect::<Vec<usize>>()),
+                             (random_on(n1, &mut r), random_on(n2, &mut r))] {
+                ops.push(load(0, n1, &ta));
+                ops.push(load(1, n2, &tb));
+                for f in ["eq", "ne", "cmp", "pcmp", "hasheq"] {
+                    ops.push(rel(0, 1, f));
+                    ops.push(rel(1, 0, f));
+                }
+            }
+            eps.push(Episode { n: n1.max(n2), tys: "lut", ops });
+        }
+    }
     eps
 }
 
@@ -1549,6 +1573,9 @@ pub fn gen_c10a(thorough: bool, seed: u64) -> Vec<Episode> {
             }
         }
         for fm in TEXT_FORMS {
+            ops.push(json!({"op": "text", "a": 0, "f": fm}));
+        }
+        for fm in TEXT_FORMS_FLAGS {
             ops.push(json!({"op": "text", "a": 0, "f": fm}));
         }
         for fm in REL_FORMS {
